@@ -64,6 +64,10 @@ func EncodeCMPPContentAndSplit(ctx context.Context, content string, msgFmt datac
 	actualMsgFmt = msgFmt
 	var encodedData []byte
 	encoder := datacoding.GetCMPPCodec(msgFmt, content)
+	if !datacoding.IsValidCMPPDataCoding(msgFmt) {
+		// unknown data coding: GetCMPPCodec fell back to ucs2, report it
+		actualMsgFmt = datacoding.CMPP_CODING_UCS2
+	}
 	encodedData, err = encoder.Encode()
 	if err != nil && encoder.Name() != datacoding.DataCodingUcs2 {
 		// use ucs2 as fallback
@@ -127,6 +131,10 @@ func EncodeSMPPContentAndSplit(ctx context.Context, content string, msgFmt datac
 
 	var encodedData []byte
 	encoder := datacoding.GetSMPPCodec(actualMsgFmt, content)
+	if !datacoding.IsValidSMPPDataCoding(actualMsgFmt) {
+		// unknown data coding: GetSMPPCodec fell back to ucs2, report it
+		actualMsgFmt = datacoding.SMPP_CODING_UCS2
+	}
 	encodedData, err = encoder.Encode()
 	if err != nil && encoder.Name() != datacoding.DataCodingUcs2 {
 		// use ucs2 as default
